@@ -51,6 +51,26 @@ pub fn check(deep: bool, st: &mut TStats, fails: &mut Vec<Failure>) {
             for ch in chains { for ctx in contexts { if let Ok(f) = fol::Formula::from_str(&ctx.replace("{}", &ch)) { if !f.predicates().is_empty() || ctx == "{}" || ctx.starts_with("not") { srcs.push(rename(&f)); } } } }
         }
     }
+    // systematic: ground integer terms of depth <= 2 over a few numerals (negative ones included) with unary minus, +, -, *:
+    // the rendering must denote the same integer (compared with the value and with the value plus one)
+    {
+        let nums: [i128; 5] = [-7, -1, 0, 1, 3];
+        let lit = |n: i128| if n < 0 { format!("{n}") } else { format!("{n}") };
+        let mut t1: Vec<(String, i128)> = nums.iter().map(|n| (lit(*n), *n)).collect();
+        for n in nums { t1.push((format!("-({})", lit(n)), -n)); t1.push((format!("-{}", lit(n)), -n)); }
+        let mut all = t1.clone();
+        for (a, va) in &t1 { for (b, vb) in &t1 {
+            all.push((format!("({a}) + ({b})"), va + vb)); all.push((format!("({a}) - ({b})"), va - vb)); all.push((format!("({a}) * ({b})"), va * vb));
+            all.push((format!("{a} - {b}"), va - vb));
+        } }
+        for (a, va) in t1.iter() { all.push((format!("-(({a}) * 2)"), -(va * 2))); all.push((format!("--({a})"), *va)); }
+        for (k, (t, v)) in all.iter().enumerate() {
+            if !deep && k % 3 != 0 && !t.starts_with("--") && !t.starts_with("-(-") && !t.starts_with("--") { continue; }
+            for f in [format!("{t} = {v}"), format!("not {t} = {}", v + 1), format!("p(1) or {t} < {v}"), format!("q({t}) <-> q({v})")] {
+                if let Ok(f) = fol::Formula::from_str(&f) { srcs.push(rename(&f)); }
+            }
+        }
+    }
     srcs.dedup();
     let ug = "input: q0/0. input: q1/1. input: q2/2. input: r0/0. input: r1/1. output: p0/0. output: p1/1. output: p2/2. input: n -> integer. input: c -> symbol. input: d -> general.";
     let inner = [Val::Int(0), Val::Int(1), Val::Sym("a".into())];
